@@ -31,6 +31,12 @@ structure Aead where
   enc : Key → Dir → Nat → Bytes → Bytes
   dec : Key → Dir → Bytes → Option Bytes
 
+/-- Hamming distance of two byte strings; strings of different length are "far" apart -/
+def hdist : Bytes → Bytes → Nat
+  | [], [] => 0
+  | a :: l, b :: r => (if a = b then 0 else 1) + hdist l r
+  | _, _ => 1000
+
 /-- the assumed laws (idealised AEAD): hypotheses of the theorems, never axioms -/
 structure Aead.Laws (A : Aead) where
   ovh : Nat
@@ -40,6 +46,11 @@ structure Aead.Laws (A : Aead) where
   dec_iff : ∀ k d c m, A.dec k d c = some m ↔ ∃ n, c = A.enc k d n m
   /-- key and direction separation, and injectivity in the message -/
   sep : ∀ k d n m k' d' n' m', A.enc k d n m = A.enc k' d' n' m' → k = k' ∧ d = d' ∧ m = m'
+  /-- INTEGRITY against alteration in flight: a genuine ciphertext with exactly one byte changed (same length, Hamming
+      distance 1) does not decrypt under the same key and direction.  (For ChaCha20-Poly1305 this holds except with
+      negligible probability; it is an idealisation like `dec_iff`, but unlike `dec_iff` it is NOT a tautology: an
+      instance has to carry a real check — the toy instance carries a checksum byte.) -/
+  tamper1 : ∀ k d n m c, hdist c (A.enc k d n m) = 1 → A.dec k d c = none
 
 /-! ### cells -/
 
@@ -478,22 +489,26 @@ def TEp.run (s : TEp) (evs : List (Bool × (Nat × Nat))) : TEp := evs.foldl (fu
 
 end
 
-/-! ### the toy AEAD: 1 nonce byte, key byte, direction byte, 21 zero bytes, then the message in clear.
+/-! ### the toy AEAD: 1 nonce byte, key byte, direction byte, 1 checksum byte, 20 zero bytes, then the message in clear.
     It satisfies `Aead.Laws` (the laws are about which byte strings decrypt, not about secrecy). -/
 
 def dirByte : Dir → UInt8
   | .fwd => 0
   | .bwd => 1
 
-def toyPad : Bytes := List.replicate 21 0
+def toyPad : Bytes := List.replicate 20 0
+
+/-- the toy's authentication tag: sum of the nonce byte and all message bytes, modulo 256 -/
+def cks (l : Bytes) : UInt8 := UInt8.ofNat ((l.map UInt8.toNat).sum % 256)
 
 def toyEnc (k : UInt8) (d : Dir) (n : Nat) (m : Bytes) : Bytes :=
-  UInt8.ofNat n :: k :: dirByte d :: (toyPad ++ m)
+  UInt8.ofNat n :: k :: dirByte d :: cks (UInt8.ofNat n :: m) :: (toyPad ++ m)
 
 def toyDec (k : UInt8) (d : Dir) (c : Bytes) : Option Bytes :=
   match c with
-  | _ :: k' :: d' :: rest =>
-    if k' = k ∧ d' = dirByte d ∧ rest.take 21 = toyPad ∧ 21 ≤ rest.length then some (rest.drop 21) else none
+  | b0 :: k' :: d' :: t :: rest =>
+    if k' = k ∧ d' = dirByte d ∧ rest.take 20 = toyPad ∧ 20 ≤ rest.length ∧ t = cks (b0 :: rest.drop 20)
+    then some (rest.drop 20) else none
   | _ => none
 
 @[reducible] def toy : Aead := { Key := UInt8, enc := toyEnc, dec := toyDec }
